@@ -147,6 +147,30 @@ class FnFx:
                         vals.append(n.value)
         return bool(vals) and all(isinstance(v, ast.Call) and last_name(v) == self.fx.payload_cls.name for v in vals)
 
+    def _other_class_local(self, e):
+        """`e` is a local bound only by constructions of a repository class other than the payload class, or
+        `self` inside such a class."""
+        prog = self.fx.prog if hasattr(self.fx, "prog") else None
+        if not isinstance(e, ast.Name) or prog is None:
+            return False
+        if e.id == "self" and self.fi.cls is not None and self.fi.cls is not self.fx.payload_cls:
+            return self.fi.node.args.args and self.fi.node.args.args[0].arg == "self"
+        vals = []
+        for n in walk_no_nested(self.fi.node):
+            if isinstance(n, ast.Assign):
+                for t in n.targets:
+                    if isinstance(t, ast.Name) and t.id == e.id:
+                        vals.append(n.value)
+        if not vals:
+            return False
+        for v in vals:
+            if not (isinstance(v, ast.Call) and isinstance(v.func, ast.Name)):
+                return False
+            ci = prog.resolve_class(v.func.id, self.fi.module)
+            if ci is None or ci is self.fx.payload_cls:
+                return False
+        return True
+
     def graph_owner(self, e):
         if isinstance(e, ast.Attribute) and e.attr == "_graph" and isinstance(e.value, ast.Name):
             return e.value.id
@@ -199,6 +223,8 @@ class FnFx:
                     if in_payload_cls and isinstance(recv, ast.Name) and recv.id == "self":
                         continue
                     o = self.payload_owner(recv)
+                    if o is None and self._other_class_local(recv):
+                        continue  # a method of the same name on an object of another repository class
                     if o is None:
                         raise AnalysisError("%s: cannot tell which tree owns the payload in %s" % (fi.qualname, u(n)))
                     evs.append(Ev("LW", o, n, "payload " + ln))
